@@ -300,6 +300,9 @@ func (m *Sim) Fail(rule, site, format string, a ...interface{}) {
 // Settle runs the system to quiescence: as long as releasable goroutines are
 // parked, one of them (chosen by the Chooser) is released.
 func (m *Sim) Settle() {
+	if MaxRunLife > 0 && time.Since(m.Start) > MaxRunLife {
+		panic(fmt.Sprintf("harness: run used %v of simulated time, the test build of the repo panics after 120s of life per node", time.Since(m.Start)))
+	}
 	for {
 		synctest.Wait()
 		m.S.steps.Add(1)
@@ -361,6 +364,10 @@ func (m *Sim) Go(name string, fn func()) *Task {
 	}()
 	return t
 }
+
+// MaxRunLife bounds the simulated duration of a run (0 = unbounded). The test
+// build of the repository panics when a server or client lives for 120 s.
+var MaxRunLife time.Duration
 
 // MaxTaskWait bounds the simulated time a single operation may take.
 var MaxTaskWait = 10 * time.Minute
